@@ -51,7 +51,9 @@ def catalogue(provider):
     C["DATE-TIME"] = [datetime(2024, 1, 2, 10, 30), datetime(1999, 12, 31, 23, 59, 59), mk(utc, 2024, 1, 2, 10, 30),
                       datetime(2024, 1, 2, 10, 30, tzinfo=timezone.utc), mk(berlin, 2024, 3, 31, 3, 30), mk(ny, 2024, 11, 3, 1, 30),
                       mk(berlin, 2024, 7, 1, 12, 0), mk(utc_alias(provider), 2024, 3, 4, 9, 0)]
-    C["DATE"] = [date(2024, 1, 2), date(1970, 1, 1), date(2037, 12, 31)]
+    C["DATE"] = [date(2024, 1, 2), date(1970, 1, 1), date(2037, 12, 31), date(999, 12, 31), date(1, 1, 1), date(1000, 1, 1), date(9999, 12, 31)]
+    C["DATE-TIME"] += [datetime(476, 9, 4, 12, 0), datetime(999, 12, 31, 23, 59, 59), datetime(1, 1, 1, 0, 0), datetime(9999, 12, 31, 23, 59, 59),
+                       datetime(33, 4, 3, 15, 0, tzinfo=timezone.utc)]
     C["TIME"] = [time(10, 30), time(0, 0, 0), time(23, 59, 59)]
     C["DURATION"] = [timedelta(hours=1), timedelta(days=2, seconds=5), -timedelta(minutes=15), timedelta(weeks=2), timedelta(0)]
     C["PERIOD"] = [(datetime(2024, 1, 2, 10), datetime(2024, 1, 2, 11)), (mk(utc, 2024, 1, 2, 10), timedelta(hours=1)),
